@@ -1,7 +1,7 @@
 SPEC = dict(
     level="exploration",
     technique="runtime monitor: seeded random write/rotate/close/reopen histories against the real RotateLogger in per-history directories, then a checker over the directory contents (length-framed records, gunzip of backups) and over the set of surviving pre-seeded files; the rule is observed through a delegating RotateRule wrapper",
-    level_text="Quick: 32 size-rule histories (2-6 real rotations each, spaced 1.1 s, run 32 wide) and 250 daily-rule histories (simulated calendar, 1-6 day changes) per seed, 1-3 sessions each, gzip on/off, keepDays/maxBackups/maxSize/delimiter/file name varied, pre-seeded backups around the retention boundary plus unrelated files. For every history: each record accepted by Write and confirmed processed before Close is on disk exactly once, byte-identical, in order, in the current file or a backup (gunzipped when .gz; backups must be .gz when compression is on); no file exceeds maxSize by more than its largest record; the current file, unrelated files, pre-existing backups inside the retention and the newest maxBackups backups are still present and unchanged. Held = no deviation in the histories observed, not a proof.",
+    level_text="Quick: 64 size-rule histories (2-6 real rotations each, spaced 1.1 s, run 32 wide) and 620 daily-rule histories (600 on a simulated calendar with 1-6 day changes, 20 on the unmodified DailyRotateRule) per seed; thorough: 1000 + 20200, 1-3 sessions each, gzip on/off, keepDays/maxBackups/maxSize/delimiter/file name varied, pre-seeded backups around the retention boundary plus unrelated files. For every history: each record accepted by Write and confirmed processed before Close is on disk exactly once, byte-identical, in order, in the current file or a backup (gunzipped when .gz; backups must be .gz when compression is on); no file exceeds maxSize by more than its largest record; the current file, unrelated files, pre-existing backups inside the retention and the newest maxBackups backups are still present and unchanged. Held = no deviation in the histories observed, not a proof.",
     level_note="Trusts: the Go runtime and the local file system; the delegating rule wrapper (records BackupFilename/MarkRotated/OutdatedFiles calls, delays size-triggered rotations so they are >= 1.1 s apart); the simulated calendar replaces ShallRotate/BackupFilename/MarkRotated of DailyRotateRule (they read time.Now and have no seam) while OutdatedFiles is the real one. One-sided retention: files that should be deleted but are kept are only counted.",
     design_ref="DESIGN.md §3 C19",
     assumptions=[
